@@ -24,12 +24,20 @@ def run(tier, seed):
         f.write(open(sched6).read())
     r1 = vhr(["reassembly", "--layouts", lay, "--templates", tp, "--in", sched], 2 if quick else 12, seed, tier, name="c08")
     v.add_report(r1, "delivery schedules")
+    # implementation -> specification: random deliveries recorded from the real clients, validated against Trace_Reassembly.tla
+    tf = f"{w}/reassembly_trace.ndjson"
+    r2 = vh(["reassembly-trace", "--layouts", lay, "--templates", tp, "--runs", 1500 if quick else 40000, "--seed", seed, "--out-trace", tf], name="c08t")
+    v.add_report(r2, "recorded deliveries")
+    validated, ts = validate_trace(v, "Trace_Reassembly.tla", "Trace_Reassembly.cfg", tf, splitter="Call", max_rounds=8)
+    mc.append(dict(ts, cfg="Trace_Reassembly.cfg"))
     nviol, _ = v.finish()
-    cov = std_cov(st + mc + [g, g6], [r1], {
+    cov = std_cov(st + mc + [g, g6], [r1, r2], {
+        "impl_to_spec": "random recorded deliveries (2-8 fragments, up to two duplicates, possibly one fragment that never arrives) through "
+                        "the real clients validated line by line against spec/Trace_Reassembly.tla",
         "rule": "one case = one delivery schedule enumerated by TLC (every permutation of 2..4 (quick) / 2..5 (thorough) fragments and every "
                 "single duplication at every later position; six fragments sampled by TLC's simulation mode) x protocol variant (Valve Source split plain and bzip2-compressed, Valve GoldSrc split, GameSpy 1 parts, "
                 "GameSpy 3 packets, Unreal 2 lists) with a random response and random fragment boundaries; distinct by (k, mode, order)",
-        "exhaustive": True})
+        "exhaustive": True}, validated=validated)
     write_evidence(PID, tier, seed, "model_checking", cov, time.time() - t0, nviol,
                    ["D1: Unreal 2 lists have no protocol order and are compared as multisets; duplicated Unreal 2 datagrams are outside "
                     "the decidable domain (no sequence numbers)", "scripted transport hook"])
